@@ -14,4 +14,5 @@ Definition roots :=
    Front.CreateOk.input_ok, Front.CreateOk.window_ok, Front.CreateOk.sustains_consistent, Front.CreateOk.paired, Front.CreateOk.in_flat,
    Front.DesugarSem.free_b, Front.DesugarSem.widen, Front.DesugarSem.orig,
    Front.Create.create_of, Front.Create.norm_crossings, Front.Create.adds_sustain, Front.Create.sustain_map,
-   Front.Create.binfo_of_create, Design.Layout.applies_at, Design.Flat.sustain_of).
+   Front.Create.binfo_of_create, Front.Create.created_constraints, Front.Create.block_of_create,
+   Design.Layout.applies_at, Design.Flat.sustain_of).
